@@ -44,7 +44,8 @@ def gen(rng: random.Random, tier: str, idx: int) -> dict:
         elif r < 0.8:
             first = {"kind": "load"}
         else:
-            first = {"kind": "first_append", "tag": f"f{i}", "schema": rng.choice([None, "A"])}
+            first = {"kind": "first_append", "tag": f"f{i}", "schema": rng.choice([None, "A", "B"]),
+                     "noinit": rng.random() < 0.4}
         ops = [first]
         if rng.random() < 0.5:
             ops.append({"kind": "first_append", "tag": f"g{i}", "schema": rng.choice([None, None, "A"])})
@@ -150,6 +151,13 @@ def execute(plan: dict, scratch: str, replay: Optional[dict] = None) -> dict:
             if k == "load" and h["outcome"] == "raise" and plan["init"] not in ("absent", "dirs_only"):
                 V.append({"clause": "I.load_raised", "msg": f"[{cfg}] {h['actor']} load_table raised {h.get('exc')} on an existing table: {(h.get('msg') or '')[:200]}",
                           "sig": f"I.load_raised|{backend}|{plan['init']}|{h.get('exc')}"})
+            if k == "first_append" and h.get("resolved", {}).get("noinit") and h["outcome"] == "raise" and (
+                    h.get("exc") == "ValueError" or "not initialized" in (h.get("msg") or "")
+                    or "No Iceberg table" in (h.get("msg") or "")):
+                # a handle opened without initialising: the table may not have existed (or had no schema) when the append
+                # was queued - refusing is right whatever a racing creator does afterwards
+                sim.probe("noinit_append_refused")
+                continue
             if k == "first_append":
                 if h["outcome"] == "raise" and h.get("exc") not in ("ValueError",):
                     V.append({"clause": "I.append_raised", "msg": f"[{cfg}] {h['actor']} first append raised {h.get('exc')}: {(h.get('msg') or '')[:200]}",
@@ -166,6 +174,12 @@ def execute(plan: dict, scratch: str, replay: Optional[dict] = None) -> dict:
                 if h["outcome"] == "ok" and st is not None and not h["op"].get("schema") and not st.schema_fields:
                     V.append({"clause": "I.schemaless_append_accepted",
                               "msg": f"[{cfg}] {h['actor']} append without any schema was accepted"})
+        if st is not None and st.schema_fields:
+            # the table has a persisted schema: whatever raced its creation, every committed file must be readable under
+            # it (an append queued before the creation must not smuggle in a file written with another schema). Tables
+            # WITHOUT a persisted schema are C11's business (known finding: nothing pins the first append's schema).
+            for v in common.library_agrees(w, st):
+                V.append(dict(v, msg=f"[{cfg}] {v['msg']}"))
         # acknowledged <=> committed, counting only non-initialising flips of each first append
         for h in w.history:
             if h["op"]["kind"] != "first_append":
